@@ -24,7 +24,7 @@ META = {
                   "give the same (decision, consistency). Exhaustive over the bounded domain, which is the whole "
                   "domain the property quantifies over except larger replica counts.",
     "level_note": "Trusted: TLC, the transcription of the documentation into Retry.tla, the feasibility predicate "
-                  "(what a coordinator can report), replica counts bounded by MaxCount (4 quick / 6 thorough).",
+                  "(what a coordinator can report), replica counts bounded by MaxCount (5 quick / 7 thorough).",
     "design_ref": "5.5 C23",
 }
 
@@ -82,7 +82,7 @@ def compare_state(policies, st):
 
 
 def run(ctx):
-    consts = {"MaxCount": 4 if ctx.quick else 6, "MaxRetries": 2 if ctx.quick else 3}
+    consts = {"MaxCount": 5 if ctx.quick else 7, "MaxRetries": 2 if ctx.quick else 3}
     cfg = tlc.write_cfg(os.path.join(ctx.scratch, "Retry.cfg"), constants=consts, invariants=INVARIANTS,
                         constraints=["Bounded"], deadlock=False)
     res, states = tlc.enumerate_states("Retry", cfg, ctx.scratch, timeout=600 if ctx.quick else 3000)
